@@ -68,14 +68,23 @@ static std::string sshist(const std::vector<std::string>& ops) {
     Bytes cur;                                        // plaintext the object should hold
     for (size_t k = 0; k < ops.size(); ++k) {
         const std::string& o = ops[k]; char c = o[0];
-        Bytes p = (c == 'S' || c == 'I') ? bx(o.substr(2)) : Bytes();
+        Bytes p = (o.size() > 1 && o[1] == ':') ? bx(o.substr(2)) : Bytes();
+        std::string pstr = str_of(p); secure_buffer<uint8_t> psb(p.size()); if (!p.empty()) memcpy(psb.data(), p.data(), p.size());   // argument objects exist before the watch region opens
         hw::clear_needles(); hw::add_needle(p.empty() ? cur.data() : p.data(), p.empty() ? cur.size() : p.size(), 1);
         hw::begin(1);
         if (c == 'S') { x->set(p.data(), p.size()); cur = p; }
         else if (c == 'R') x->rotate_nonce();
         else if (c == 'C') { x->clear(); cur.clear(); }
+        else if (c == 's') { x->set(pstr); cur = p; }                                   // the other set() forms
+        else if (c == 'b') { x->set(psb); cur = p; }
+        else if (c == 'B') { x->set(std::move(psb)); cur = p; }
         else if (c == 'I') { *x = secret_string(p.data(), p.size()); cur = p; }
+        else if (c == 'i') { *x = secret_string(pstr); cur = p; }                       // the other constructors, moved in
+        else if (c == 'j') { *x = secret_string(psb); cur = p; }
+        else if (c == 'J') { *x = secret_string(std::move(psb)); cur = p; }
         else if (c == 'O') { secret_string y(std::move(*x)); cur.clear(); }
+        else if (c == 'X') { secret_string y(std::move(*x)); *x = std::move(y); }       // out to another object and back: same bytes
+        else if (c == 'M') { secret_string& r = *x; *x = std::move(r); }                // self move-assignment keeps the object
         else throw std::logic_error("sshist op");
         long heap_dirty = hw::end().dirty;
         // stored representation
@@ -139,7 +148,7 @@ static std::string heap_call(const std::vector<std::string>& a_in) {
     // arguments are materialised BEFORE the watch region opens, results are kept alive until it is closed
     Bytes A2 = at > 3 ? bx(a[3]) : Bytes(), A3 = at > 4 ? bx(a[4]) : Bytes(), A4 = at > 5 ? bx(a[5]) : Bytes();
     secure_buffer<uint8_t> S2 = sbuf(A2), S3 = sbuf(A3), S4 = sbuf(A4);
-    std::string str3 = str_of(A3), str4 = str_of(A4);
+    std::string str2 = str_of(A2), str3 = str_of(A3), str4 = str_of(A4);
     Bytes r1; std::string rs; secure_buffer<uint8_t, true> rsec; secure_buffer<uint8_t> rdec; KeyIv kiv; Pbkdf2Result pres; bool rb = false; int ri = 0;
     uint32_t c32 = 0; size_t n1 = 0;
     hw::begin(1);
@@ -170,12 +179,21 @@ static std::string heap_call(const std::vector<std::string>& a_in) {
         else if (f == "b64dec_secure") rb = base64_decode(str_of(A2), rdec, a[2] == "1" ? Base64Alphabet::Url : Base64Alphabet::Standard, false, false);
         else if (f == "b32dec_secure") rb = base32_decode(str_of(A2), rdec, false, false);
         else if (f == "b36dec_secure") rb = base36_decode(str_of(A2), rdec);
+        // secret_string operations; the plaintext (A2, or A3 for the second value) is the needle
+        else if (f == "ss_set") { secret_string x(A2.data(), A2.size()); x.set(A3.data(), A3.size()); x.set(str2); x.clear(); }
+        else if (f == "ss_rotate") { secret_string x(A2.data(), A2.size()); x.rotate_nonce(); x.rotate_nonce(); }
+        else if (f == "ss_move") { secret_string x(A2.data(), A2.size()); secret_string y(std::move(x)); x = std::move(y); x = secret_string(A3.data(), A3.size()); }
+        else if (f == "ss_reveal") { secret_string x(A2.data(), A2.size()); rs = x.reveal_copy(); }
+        else if (f == "ss_cb") { secret_string x(A2.data(), A2.size()); x.with_plaintext([&](const uint8_t* p, size_t n) { ri = n ? p[0] : 0; }); }
+        else if (f == "ss_cb_throw_std") { secret_string x(A2.data(), A2.size()); x.with_plaintext([&](const uint8_t*, size_t) { throw std::runtime_error("callback"); }); }
+        else if (f == "ss_cb_throw_other") { secret_string x(A2.data(), A2.size()); x.with_plaintext([&](const uint8_t*, size_t) { throw ThrowInt(); }); }
         else outcome = "HARNESS-unknown-api";
     }
     catch (const std::invalid_argument&) { outcome = "throw:invalid_argument"; }
     catch (const std::overflow_error&) { outcome = "throw:overflow_error"; }
     catch (const std::runtime_error&) { outcome = "throw:runtime_error"; }
     catch (const std::bad_alloc&) { outcome = "throw:bad_alloc"; }
+    catch (const ThrowInt&) { outcome = "throw:callback_type"; }
     hw::Report rep = hw::end();
     std::string res = outcome + " released=";
     if (rep.dirty == 0) return res + "clean";
@@ -277,7 +295,12 @@ static std::string oom_call(const std::vector<std::string>& a) {
     if (f.compare(0, 3, "ss_") == 0) {
         std::string prev = hx(A2), next = hx(A3); std::string res; res.reserve(400); (void)secret_string::verif_process_key(); long live_before = hw::g_live; secret_string* x = 0;
         auto reset = [&]() { delete x; x = new secret_string(A2.data(), A2.size()); if (f == "ss_rotate_revealed" || f == "ss_set_revealed") (void)x->reveal_copy(); };   // a successful reveal before the faulty operation
-        auto st = [&]() { try { return "reveals:" + hxs(x->reveal_copy()); } catch (const std::runtime_error&) { return std::string("integrity-error"); } catch (const std::bad_alloc&) { return std::string("bad_alloc-on-reveal"); } };
+        // at rest the stored bytes never contain the plaintext - also after an interrupted operation (C18 over fault sequences)
+        auto at_rest_plain = [&](const Bytes& pl) { const std::vector<uint8_t>& ct = x->verif_ct();
+            for (size_t j = 0; j + 8 <= pl.size(); ++j) if (hw::window_interesting(pl.data() + j, 8) && ct.size() >= 8 && memmem(ct.data(), ct.size(), pl.data() + j, 8)) return true;
+            return false; };
+        auto st = [&]() { if (at_rest_plain(A2) || at_rest_plain(A3)) return std::string("PLAINTEXT-AT-REST");
+                          try { return "reveals:" + hxs(x->reveal_copy()); } catch (const std::runtime_error&) { return std::string("integrity-error"); } catch (const std::bad_alloc&) { return std::string("bad_alloc-on-reveal"); } };
         auto ok_state = [&](const std::string& s) { return s == "reveals:" + prev || s == "reveals:" + next || s == "integrity-error"; };
         if (f == "ss_set") res = oom_sweep(reset, [&]() { OomResult r = guard_call([&]() { x->set(A3.data(), A3.size()); return std::string(); }); hw::g_watch = false; hw::g_fail_at = -1; r.state = st(); return r; }, ok_state, false);
         else if (f == "ss_set_revealed") res = oom_sweep(reset, [&]() { OomResult r = guard_call([&]() { x->set(A3.data(), A3.size()); return std::string(); }); hw::g_watch = false; hw::g_fail_at = -1; r.state = st(); return r; }, ok_state, false);
